@@ -40,9 +40,12 @@ def observe_record(cid, prog, o, pc0):
 
 def design_level(rep, tier):
     mc = os.path.join(SPEC, "MC_Asm.tla")
-    cfg = os.path.join(SPEC, "MC_Asm_quick.cfg" if tier == "quick" else "MC_Asm_thorough.cfg")
+    cfg = os.path.join(SPEC, "MC_Asm_export_quick.cfg" if tier == "quick" else "MC_Asm_export_thorough.cfg")
+    out = os.path.join(V.workdir("C02"), "mcasm-programs.ndjson")
+    if os.path.exists(out):
+        os.remove(out)
     # (-coverage is prohibitively slow on the recursive walker; vacuity is shown by the witness runs below)
-    r = V.tlc(mc, cfg=cfg, workers=8, timeout=3000, tag="C02-mc", xmx="12g")
+    r = V.tlc(mc, cfg=cfg, env={"OUT": out}, workers=8, timeout=3000, tag="C02-mc", xmx="12g")
     rep.add_tlc(r)
     if r.invariant_violated:
         rep.violations.append({"why": "design level: MC_Asm invariant violated (FixedPoint/Terminates)", "replay": {"tlc_output": V.tail(r.out, 80), "cfg": cfg}, "id": "MC_Asm"})
@@ -50,6 +53,7 @@ def design_level(rep, tier):
     if r.rc != 0 or "Error:" in r.out:
         raise V.ToolError("MC_Asm failed:\n" + V.tail(r.out, 40))
     rep.notes.append("MC_Asm (%s): %d distinct states, depth %d; invariants FixedPoint, Terminates hold" % (os.path.basename(cfg), r.distinct, r.depth))
+    rep.mc_programs = [e["prog"] for e in V.read_ndjson(out)]
     for w in ("ok", "failed", "four", "osc", "stale", "noseg"):
         rv = V.tlc(mc, cfg=os.path.join(SPEC, "MC_Asm_vac_%s.cfg" % w), workers=4, timeout=600, tag="C02-vac-" + w)
         if not rv.invariant_violated:
@@ -90,6 +94,24 @@ def main(tier):
         cases.append({"id": i, "files": dict({fn: G.render(fp) for fn, fp in files.items()}, **{"main.asm": src}), "pc": pc0, "want": ["segments", "symbols", "vice", "passes"], "max_passes": 60})
         progs[i] = (prog, src, pc0)
         pfiles[i] = files
+    # spec -> implementation: the program space TLC explored at design level (every program of the five small families) goes
+    # through the real assembler too and is judged like the generated programs (thorough: a seeded third of it)
+    mcp = getattr(rep, "mc_programs", [])
+    if tier != "quick":
+        mcp = [p for p in mcp if rnd.random() < 0.34]
+    # ... and the programs of the first family once more without their leading `* = $fc` (a program that never sets the
+    # program counter needs one pass less: nothing but its own references can force the confirming pass)
+    mcp = mcp + [tp[1:] for tp in mcp if len(tp) > 1 and tp[0]["k"] == "setpc" and tp[0]["sid"] == "org" and tp[0]["e"].get("n") == 252]
+    for k, tp in enumerate(mcp):
+        i = 1_000_000 + k
+        prog = G.from_tla(tp)
+        G.separate_label_from_braces(prog)       # (`b:` directly followed by `{` would be ONE statement to the parser: a nop goes between)
+        G.number_statements(prog)
+        src = G.render(prog)
+        cases.append({"id": i, "files": {"main.asm": src}, "pc": 0x2000, "want": ["segments", "symbols", "vice", "passes"], "max_passes": 60})
+        progs[i] = (prog, src, 0x2000)
+        pfiles[i] = {}
+    rep.cov["design_level_programs_replayed"] = len(mcp)
     only = os.environ.get("C02_ONLY")          # diagnosis: restrict to some case ids (the generator stream stays the same)
     if only:
         keep = {int(x) for x in only.split(",")}
